@@ -104,7 +104,7 @@ pub fn is_zero_uint(value: &[u64]) -> bool {
 pub fn set_bit_uint(value: &mut[u64], bit_index: usize) {
     let u64_index = bit_index / 64;
     let sub_bit_index = bit_index % 64;
-    value[u64_index] |= (1 << sub_bit_index) as u64;
+    value[u64_index] |= 1u64 << sub_bit_index;
 }
 
 #[inline]
